@@ -189,3 +189,27 @@ Theorem C12_tie_class_attr_hooks : Gen_Classes.attr_hooks = exp_attr_hooks.
 Proof. exact attr_hooks_tie. Qed.
 Print Assumptions C12_tie_class_attr_hooks.
 
+(* ---- the write / read round trip of the last clause goes through the Python writer and reader: their statement lists are tied
+   here as in C01 (an edit of Pose.write, PoseHeader.read, PoseBody.read ... re-opens this property too) ---- *)
+Require Import CodecGenTie.
+Theorem C12_tie_py_pose_write : Gen_Codec.pose_write = exp_pose_write.
+Proof. exact pose_write_tie. Qed.
+Print Assumptions C12_tie_py_pose_write.
+Theorem C12_tie_py_header_write : Gen_Codec.header_write = exp_header_write.
+Proof. exact header_write_tie. Qed.
+Print Assumptions C12_tie_py_header_write.
+Theorem C12_tie_py_body_write : Gen_Codec.body_write = exp_body_write.
+Proof. exact body_write_tie. Qed.
+Print Assumptions C12_tie_py_body_write.
+Theorem C12_tie_py_pose_read : Gen_Codec.pose_read = exp_pose_read.
+Proof. exact pose_read_tie. Qed.
+Print Assumptions C12_tie_py_pose_read.
+Theorem C12_tie_py_header_read : Gen_Codec.header_read = exp_header_read.
+Proof. exact header_read_tie. Qed.
+Print Assumptions C12_tie_py_header_read.
+Theorem C12_tie_py_body_read_dispatch : Gen_Codec.body_read_dispatch = exp_body_read_dispatch.
+Proof. exact body_read_dispatch_tie. Qed.
+Print Assumptions C12_tie_py_body_read_dispatch.
+Theorem C12_tie_py_body_read_v0_2 : Gen_Codec.body_read_v0_2 = exp_body_read_v0_2.
+Proof. exact body_read_v0_2_tie. Qed.
+Print Assumptions C12_tie_py_body_read_v0_2.
